@@ -1,5 +1,7 @@
 import CookModel.Lemmas.C02LiftInter
 import CookModel.Lemmas.ParserNoPanic
+import CookModel.Lemmas.SimQty
+import CookModel.Lemmas.Diag
 /-
   Wave 7, seed audit of C02 / C03 (branch w7reauditA): lemmas for the theorems that close the
   "no existing theorem breaks" rows of notes/audit-C02.md, notes/audit-C03.md.
@@ -161,5 +163,239 @@ theorem w7a_parseModifiers_inter_off (mtoks : List Tok) (pos : Nat) (s : BP α)
     dsimp only
     rw [P_bind_run]
     exact w7a_parseModifiersLoop_false _ _ _ _ _
+
+/-! ### RANGE_VALUES off: no quantity value is a range -/
+
+/-- the value is not a range -/
+def Value.notRange (v : Value α) : Prop := ∀ a b, v ≠ .range a b
+
+theorem w7a_exmap_notRange (r : Except Diag (Number α)) (v : Value α) (h : r.map Value.number = .ok v) :
+    Value.notRange v := by
+  cases r with
+  | error e => cases h
+  | ok n =>
+    have : v = .number n := by
+      have h' : (Except.ok (Value.number n) : Except Diag (Value α)) = .ok v := h
+      injection h' with h''
+      exact h''.symm
+    subst this
+    intro a b hc; cases hc
+
+/-- `numeric_value` never yields a range -/
+theorem w7a_numericValue_notRange (tokens : List Tok) (v : Value α)
+    (h : numericValue (α := α) tokens = some (.ok v)) : Value.notRange v := by
+  rw [numericValue_eq] at h
+  dsimp only at h
+  have hnum : ∀ n : Number α, Value.notRange (Value.number n) := fun n a b hc => by cases hc
+  have hfrac : ∀ f : List Tok, fracTail (α := α) f = some (.ok v) → Value.notRange v := by
+    intro f hf
+    unfold fracTail at hf
+    split at hf
+    · split at hf
+      · simp only [Option.some.injEq] at hf
+        exact w7a_exmap_notRange _ _ hf
+      · cases hf
+    · cases hf
+  have hmixed : ∀ f : List Tok, mixedTail (α := α) f = some (.ok v) → Value.notRange v := by
+    intro f hf
+    unfold mixedTail at hf
+    split at hf
+    · split at hf
+      · simp only [Option.some.injEq] at hf
+        exact w7a_exmap_notRange _ _ hf
+      · cases hf
+    · split at hf
+      · simp only [Option.some.injEq] at hf
+        exact w7a_exmap_notRange _ _ hf
+      · cases hf
+    · cases hf
+  split at h
+  · cases h
+  · split at h
+    · simp only [Option.some.injEq, Except.ok.injEq] at h; subst h; exact hnum _
+    · cases h
+  · split at h
+    · simp only [Option.some.injEq, Except.ok.injEq] at h; subst h; exact hnum _
+    · exact hfrac _ h
+  · split at h
+    · simp only [Option.some.injEq, Except.ok.injEq] at h; subst h; exact hnum _
+    · cases h
+  · exact hmixed _ h
+
+/-- `R` holds of the result of `m` from every state whose extension set lacks RANGE_VALUES -/
+def RSat {β : Type} (m : P α β) (R : β → Prop) : Prop :=
+  ∀ s : BP α, s.ext.has Gen.EXT_RANGE_VALUES = false → R (m s).1
+
+theorem RSat.pure {β : Type} {R : β → Prop} (a : β) (h : R a) : RSat (Pure.pure a : P α β) R := fun _ _ => h
+
+theorem RSat.bind {β γ : Type} {m : P α β} {k : β → P α γ} {R : γ → Prop} (hm : FG m)
+    (hk : ∀ a, RSat (k a) R) : RSat (m >>= k) R := by
+  intro s hs
+  rw [P_bind_run]
+  apply hk
+  rw [(hm.out s).2.1]
+  exact hs
+
+theorem RSat.bind' {β γ : Type} {m : P α β} {k : β → P α γ} {R1 : β → Prop} {R : γ → Prop} (hm : FG m)
+    (h1 : RSat m R1) (hk : ∀ a, R1 a → RSat (k a) R) : RSat (m >>= k) R := by
+  intro s hs
+  rw [P_bind_run]
+  apply hk _ (h1 s hs)
+  rw [(hm.out s).2.1]
+  exact hs
+
+theorem RSat.hasExtRange {γ : Type} {k : Bool → P α γ} {R : γ → Prop} (hk : RSat (k false) R) :
+    RSat (hasExt Gen.EXT_RANGE_VALUES >>= k) R := by
+  intro s hs
+  rw [P_bind_run]
+  have h2 : hasExt (α := α) Gen.EXT_RANGE_VALUES s = (s.ext.has Gen.EXT_RANGE_VALUES, s) := rfl
+  rw [h2, hs]
+  exact hk s hs
+
+theorem w7a_numOrRange_false (tokens : List Tok) : numOrRange (α := α) false tokens = numericValue tokens := by
+  unfold numOrRange rangeValue
+  simp only [Bool.not_false, if_true]
+
+theorem w7a_textValue_text (tokens : List Tok) (off : Nat) (s : BP α) :
+    ∃ t, (textValue tokens off s).1 = Value.text t := by
+  unfold textValue
+  simp only [P_bind_run]
+  split <;> exact ⟨_, rfl⟩
+
+theorem w7a_parseValue_rsat (tokens : List Tok) :
+    RSat (parseValue (α := α) tokens) (fun v => Value.notRange v.val) := by
+  unfold parseValue
+  refine RSat.bind FQ.currentOffset.toFG (fun cur => ?_)
+  dsimp only
+  refine RSat.hasExtRange ?_
+  rw [w7a_numOrRange_false]
+  cases hn : numericValue (α := α) tokens with
+  | none =>
+    intro s hs
+    dsimp only
+    rw [P_bind_run]
+    obtain ⟨t, ht⟩ := w7a_textValue_text tokens ((tokens.head?.map (·.start)).getD cur) s
+    show Value.notRange (textValue tokens _ s).1
+    rw [ht]
+    intro a b hc; cases hc
+  | some r =>
+    cases r with
+    | ok v => exact RSat.pure _ (w7a_numericValue_notRange tokens v hn)
+    | error e =>
+      intro s hs
+      intro a b hc
+      cases hc
+
+/-- `R` holds of the result of `m` from every state -/
+def Res {β : Type} (m : P α β) (R : β → Prop) : Prop := ∀ s : BP α, R (m s).1
+
+theorem Res.pure {β : Type} {R : β → Prop} (a : β) (h : R a) : Res (Pure.pure a : P α β) R := fun _ => h
+
+theorem Res.bind {β γ : Type} {m : P α β} {k : β → P α γ} {R : γ → Prop} (hk : ∀ a, Res (k a) R) :
+    Res (m >>= k) R := fun s => hk _ _
+
+theorem RSat.bindRes {β γ : Type} {m : P α β} {k : β → P α γ} {R1 : β → Prop} {R : γ → Prop}
+    (h1 : RSat m R1) (hk : ∀ a, R1 a → Res (k a) R) : RSat (m >>= k) R := by
+  intro s hs
+  rw [P_bind_run]
+  exact hk _ (h1 s hs) _
+
+theorem w7a_qvalue_rsat : RSat (qvalue (α := α)) (fun v => Value.notRange v.value.val) := by
+  unfold qvalue
+  refine RSat.bind (by fg_auto) (fun lock => ?_)
+  refine RSat.bind (by fg_auto) (fun vt => ?_)
+  refine RSat.bindRes (w7a_parseValue_rsat vt) (fun v hv => ?_)
+  exact Res.pure _ hv
+
+theorem w7a_parseRegularQuantity_rsat :
+    RSat (parseRegularQuantity (α := α)) (fun pq => Value.notRange pq.quantity.val.value.value.val) := by
+  unfold parseRegularQuantity
+  refine RSat.bindRes w7a_qvalue_rsat (fun value hv => ?_)
+  repeat (first
+    | exact Res.pure _ hv
+    | refine Res.bind (fun _ => ?_)
+    | dsimp only
+    | split)
+
+theorem w7a_parseAdvancedQuantity_rsat :
+    RSat (parseAdvancedQuantity (α := α))
+      (fun r => ∀ pq, r = some pq → Value.notRange pq.quantity.val.value.value.val) := by
+  have hnone : ∀ pq : ParsedQuantity α, (none : Option (ParsedQuantity α)) = some pq →
+      Value.notRange pq.quantity.val.value.value.val := fun pq h => by cases h
+  unfold parseAdvancedQuantity
+  refine RSat.bind (by fg_auto) (fun all => ?_)
+  split
+  · exact RSat.pure _ hnone
+  refine RSat.bind (by fg_auto) (fun lock => ?_)
+  refine RSat.bind (by fg_auto) (fun _ => ?_)
+  refine RSat.bind (by fg_auto) (fun vt => ?_)
+  split
+  · exact RSat.pure _ hnone
+  split
+  · exact RSat.pure _ hnone
+  dsimp only
+  split
+  case' isTrue => refine RSat.bind (by fg_auto) (fun _ => ?_)
+  all_goals
+    refine RSat.bind (by fg_auto) (fun ut => ?_)
+    split
+    · exact RSat.pure _ hnone
+    try dsimp only
+    refine RSat.hasExtRange ?_
+    rw [w7a_numOrRange_false]
+    split
+    · exact RSat.pure _ hnone
+    rename_i r hr
+    refine RSat.bind' (R1 := Value.notRange) (by fg_auto) ?_ (fun v hv => ?_)
+    · cases r with
+      | ok v => exact RSat.pure _ (w7a_numericValue_notRange _ v hr)
+      | error e =>
+        intro s hs a b hc
+        cases hc
+    · refine RSat.bind (by fg_auto) (fun unit => ?_)
+      refine RSat.bind (by fg_auto) (fun sp => ?_)
+      refine RSat.pure _ ?_
+      intro pq hpq
+      simp only [Option.some.injEq] at hpq
+      subst hpq
+      exact hv
+
+/-- **RANGE_VALUES off: `parse_quantity` never returns a range value**, on either path (the advanced-units
+    parser or the regular one), whatever the tokens and the other extension bits are -/
+theorem w7a_parseQuantityInner_rsat :
+    RSat (parseQuantityInner (α := α)) (fun pq => Value.notRange pq.quantity.val.value.value.val) := by
+  unfold parseQuantityInner
+  refine RSat.bind' (R1 := fun r => ∀ pq, r = some pq → Value.notRange pq.quantity.val.value.value.val)
+    ?_ ?_ (fun adv hadv => ?_)
+  · refine FG.bind (FQ.hasExt _).toFG (fun b => ?_)
+    split
+    · exact FG.withRecover FG.parseAdvancedQuantity
+    · exact FG.pure _
+  · refine RSat.bind (FQ.hasExt _).toFG (fun b => ?_)
+    split
+    · intro s hs
+      have : (withRecover parseAdvancedQuantity s).1 = (parseAdvancedQuantity s).1 := by
+        rw [withRecover_run_ext]; split <;> rfl
+      rw [this]
+      exact w7a_parseAdvancedQuantity_rsat s hs
+    · exact RSat.pure _ (fun pq h => by cases h)
+  · cases adv with
+    | some q => exact RSat.pure _ (hadv q rfl)
+    | none => exact w7a_parseRegularQuantity_rsat
+
+/-- **RANGE_VALUES off: `parse_quantity` never returns a range value**, on either path (the advanced-units
+    parser or the regular one), whatever the tokens and the other extension bits are -/
+theorem w7a_parseQuantity_no_range (q : List Tok) (s : BP α) (hoff : s.ext.has Gen.EXT_RANGE_VALUES = false) :
+    Value.notRange (parseQuantity q s).1.quantity.val.value.value.val := by
+  rw [parseQuantity_run]
+  dsimp only
+  apply w7a_parseQuantityInner_rsat
+  show (((if q.isEmpty then panicWith "parse_quantity: empty tokens" else pure () : P α Unit) s).2).ext.has _ = false
+  have hf : FQ (if q.isEmpty then panicWith "parse_quantity: empty tokens" else pure () : P α Unit) := by
+    split
+    · exact FQ.panicWith _
+    · exact FQ.pure _
+  rw [(hf.out s).2.1]
+  exact hoff
 
 end Cook
